@@ -37,6 +37,12 @@ class App(RecSession):
     def __init__(self):
         super().__init__(schema=SCHEMA)
         self.calls = []
+        self.head = []   # statements seen by a middleware the application installs at the head of the chain
+
+        async def head_mw(q):
+            self.head.append(q.expression.sql(dialect="mysql"))
+            return await q.next()
+        self.middlewares.insert(0, head_mw)
 
     async def query(self, expression, sql, attrs):
         text = expression.sql(dialect="mysql")
@@ -308,6 +314,7 @@ async def run_history(chk, rng, hist, caps, hs_db):
         else:
             _, sql, recs, via, attrs = ev
             n0 = len(app.calls)
+            h0 = len(app.head)
             if via == "query":
                 out = await a.cmd(com_query(sql.encode(), a.caps, attrs), n=120)
             else:
@@ -319,7 +326,7 @@ async def run_history(chk, rng, hist, caps, hs_db):
                 out = await a.cmd(com_stmt_execute(sid, [], caps=a.caps, attrs=attrs), n=120)
                 await a.cmd(b"\x19" + struct.pack("<I", sid), n=5)
             new = app.calls[n0:]
-            obs.append(("text", classify(out, a.caps, via != "query"), new, None, app.database))
+            obs.append(("text", classify(out, a.caps, via != "query"), new, app.head[h0:], app.database))
     await a.finish()
     return obs
 
@@ -378,7 +385,7 @@ async def cases(chk, rng, count):
             _, sql, recs, via, attrs = ev
             annotate(db, recs, [r.get("tables", []) for r in recs])
             toks.append("T:" + ";".join(stmt_token(r) for r in recs))
-            _, outcome, new, _, dbafter = ob
+            _, outcome, new, head, dbafter = ob
             got_calls = [(c[1], c[2]) for c in new if c[0] == "query"]
             got_uses = [c[1] for c in new if c[0] == "use"]
             want_calls, want_uses, db2, want_outcome = expected_by_property(db, recs)
@@ -390,6 +397,13 @@ async def cases(chk, rng, count):
             if got_calls != want_calls:
                 chk.fail("application calls are not exactly the statements it must handle, once, in order (with the selected database)",
                          tdesc, dict(got=got_calls, want=want_calls))
+            nhandled = len(recs)
+            for j, r in enumerate(recs):
+                if r["fails"]:
+                    nhandled = j + 1
+                    break
+            if head is not None and len(head) != nhandled:
+                chk.fail("a middleware at the head of the chain did not see each statement exactly once", tdesc, dict(seen=len(head), statements=nhandled, head=head[:8]))
             if got_uses != want_uses:
                 chk.fail("USE statements not applied once each in order", tdesc, dict(got=got_uses, want=want_uses))
             want_attrs = {a_[3].decode(): a_[2].decode() for a_ in attrs} if (caps & QA) else {}
